@@ -20,7 +20,7 @@ LEVEL = "exploration"
 RULE = ("cases = batches of random systems (1-30 atoms shaped as gases, layers, chains, blobs, lattices and 'impurity' cells - one uniquely large atom bonded to its own image - in orthogonal/skewed/"
         "sheared cells of 0.5-30 A, all 8 pbc masks, thresholds 0.3-3.5 A, covalent/vdw/custom radii, atoms inside the "
         "cell or shifted by up to +-5 lattice vectors), each judged against the cycle-rank oracle and re-evaluated under "
-        "supercell / basis change / rigid motion / permutation / single-atom lattice shifts; installed binding, fresh "
+        "supercell / basis change / leaning non-periodic cell vectors / rigid motion / permutation / single-atom lattice shifts; installed binding, fresh "
         "build, ASan+UBSan build; plus in-situ calls from SBC/Classifier runs. Non-trivial = periodic system whose "
         "bonding graph has at least one edge; distinct = (shape, cell kind, pbc, expected value, presentation, lane)")
 ASSUMPTIONS = ["numpy matrix_rank on small integer matrices", "ASE radii tables as the documented presets",
@@ -233,6 +233,16 @@ def variants(rng, atoms):
         reps = [int(rng.integers(1, 3)) if pbc[i] else 1 for i in range(3)]
         if np.prod(reps) > 1:
             out.append(("supercell", atoms.repeat(reps), "tile"))
+    # re-description of the NON-periodic cell vectors: they only delimit the box, so letting them lean over the
+    # periodic ones (c' = c + t.a) describes the same structure
+    NP = [i for i in range(3) if not pbc[i]]
+    if P and NP:
+        newcell = cell.copy()
+        for i in NP:
+            for j in P:
+                newcell[i] = newcell[i] + float(rng.uniform(-2.0, 2.0)) * cell[j]
+        if abs(np.linalg.det(newcell)) > 1e-6:
+            out.append(("leaning_nonperiodic_vector", Atoms(numbers=z, positions=pos, cell=newcell, pbc=pbc), None))
     # basis change among periodic axes
     if len(P) >= 2:
         M = np.eye(3, dtype=int)
